@@ -275,42 +275,56 @@ func (cm *CMap) parseBfRange(content string) error {
 	return nil
 }
 
-// parseBfRangeSection parses a single beginbfrange/endbfrange section
+// parseBfRangeSection parses a single beginbfrange/endbfrange section.
+// Entries are read token by token, so they may be separated by any white
+// space (or none) and offset-form and array-form entries may be mixed freely:
+//
+//	<start> <end> <dst>
+//	<start> <end> [<dst1> <dst2> ...]
 func (cm *CMap) parseBfRangeSection(section string) error {
-	// Check for array format first (contains "[")
-	// Array format needs special handling as it can span multiple entries
-	if strings.Contains(section, "[") {
-		return cm.parseBfRangeSectionWithArrays(section)
+	// Tokens: the content of each <...> hex string, "[" and "]"
+	tokens := make([]string, 0)
+	for i := 0; i < len(section); i++ {
+		switch section[i] {
+		case '[', ']':
+			tokens = append(tokens, section[i:i+1])
+		case '<':
+			end := strings.IndexByte(section[i:], '>')
+			if end == -1 {
+				i = len(section)
+				break
+			}
+			tokens = append(tokens, section[i+1:i+end])
+			i += end
+		}
 	}
 
-	// Simple format: <start> <end> <unicode> triplets
-	// Handle CMaps without newlines by processing all hex strings in groups of 3
-	hexStrings := make([]string, 0)
-	startIdx := 0
-	for {
-		idx := strings.Index(section[startIdx:], "<")
-		if idx == -1 {
-			break
+	for i := 0; i+2 < len(tokens); {
+		startHex, endHex := tokens[i], tokens[i+1]
+		if startHex == "[" || startHex == "]" || endHex == "[" || endHex == "]" {
+			i++ // stray bracket - resynchronise
+			continue
 		}
-		idx += startIdx
-		endIdx := strings.Index(section[idx:], ">")
-		if endIdx == -1 {
-			break
+
+		// Destination: one hex string, or an array of hex strings
+		var dstHex string
+		var dstArray []string
+		isArray := tokens[i+2] == "["
+		next := i + 3
+		if isArray {
+			for next < len(tokens) && tokens[next] != "]" {
+				if tokens[next] != "[" {
+					dstArray = append(dstArray, tokens[next])
+				}
+				next++
+			}
+			next++ // skip "]"
+		} else {
+			dstHex = tokens[i+2]
 		}
-		endIdx += idx
+		i = next
 
-		hexStr := section[idx+1 : endIdx]
-		hexStrings = append(hexStrings, hexStr)
-		startIdx = endIdx + 1
-	}
-
-	// Process hex strings in groups of 3: (start, end, unicode)
-	for i := 0; i+2 < len(hexStrings); i += 3 {
-		startHex := hexStrings[i]
-		endHex := hexStrings[i+1]
-		dstHex := hexStrings[i+2]
-
-		if startHex == "" || endHex == "" || dstHex == "" {
+		if startHex == "" || endHex == "" || (!isArray && (dstHex == "" || dstHex == "]")) {
 			continue
 		}
 
@@ -326,197 +340,36 @@ func (cm *CMap) parseBfRangeSection(section string) error {
 
 		startCode, err1 := parseHexToUint32(startHex)
 		endCode, err2 := parseHexToUint32(endHex)
-		dstUnicode, err3 := parseHexToUint32(dstHex)
-
-		if err1 != nil || err2 != nil || err3 != nil {
+		if err1 != nil || err2 != nil {
 			continue
 		}
 
-		// Add range mapping
-		cm.rangeMappings = append(cm.rangeMappings, CMapRange{
-			StartCode:    startCode,
-			EndCode:      endCode,
-			StartUnicode: dstUnicode,
-		})
+		if isArray {
+			// Map each character code to its Unicode value
+			currentCode := startCode
+			for _, hex := range dstArray {
+				if hex == "" {
+					continue
+				}
+				unicode, err := hexToUnicode(hex)
+				if err == nil && currentCode <= endCode {
+					cm.charMappings[currentCode] = unicode
+				}
+				currentCode++
+			}
+			continue
+		}
+
+		r := CMapRange{StartCode: startCode, EndCode: endCode}
+		dstUnicode, err := parseHexToUint32(dstHex)
+		if err != nil {
+			continue
+		}
+		r.StartUnicode = dstUnicode
+		cm.rangeMappings = append(cm.rangeMappings, r)
 	}
 
 	return nil
-}
-
-// parseBfRangeSectionWithArrays handles bfrange sections that contain array format entries
-func (cm *CMap) parseBfRangeSectionWithArrays(section string) error {
-	// Split into lines for array handling (arrays may span lines)
-	lines := strings.Split(section, "\n")
-
-	i := 0
-	for i < len(lines) {
-		line := strings.TrimSpace(lines[i])
-		if line == "" {
-			i++
-			continue
-		}
-
-		// Check if this is an array format
-		if strings.Contains(line, "[") {
-			// Array format: <start> <end> [<u1> <u2> ...]
-			// This may span multiple lines
-			fullLine := line
-			for !strings.Contains(fullLine, "]") && i+1 < len(lines) {
-				i++
-				fullLine += " " + strings.TrimSpace(lines[i])
-			}
-			cm.parseBfRangeArray(fullLine)
-			i++
-			continue
-		}
-
-		// Simple format on this line: <start> <end> <unicode>
-		hexStrings := make([]string, 0)
-		startIdx := 0
-		for {
-			idx := strings.Index(line[startIdx:], "<")
-			if idx == -1 {
-				break
-			}
-			idx += startIdx
-			endIdx := strings.Index(line[idx:], ">")
-			if endIdx == -1 {
-				break
-			}
-			endIdx += idx
-
-			hexStr := line[idx+1 : endIdx]
-			hexStrings = append(hexStrings, hexStr)
-			startIdx = endIdx + 1
-		}
-
-		// Process in groups of 3
-		for j := 0; j+2 < len(hexStrings); j += 3 {
-			startHex := hexStrings[j]
-			endHex := hexStrings[j+1]
-			dstHex := hexStrings[j+2]
-
-			if startHex == "" || endHex == "" || dstHex == "" {
-				continue
-			}
-
-			srcHexLen := len(startHex)
-			if srcHexLen%2 != 0 {
-				srcHexLen++
-			}
-			srcByteWidth := srcHexLen / 2
-			if srcByteWidth > cm.actualByteWidth {
-				cm.actualByteWidth = srcByteWidth
-			}
-
-			startCode, err1 := parseHexToUint32(startHex)
-			endCode, err2 := parseHexToUint32(endHex)
-			dstUnicode, err3 := parseHexToUint32(dstHex)
-
-			if err1 != nil || err2 != nil || err3 != nil {
-				continue
-			}
-
-			cm.rangeMappings = append(cm.rangeMappings, CMapRange{
-				StartCode:    startCode,
-				EndCode:      endCode,
-				StartUnicode: dstUnicode,
-			})
-		}
-
-		i++
-	}
-
-	return nil
-}
-
-// parseBfRangeArray parses array format: <start> <end> [<u1> <u2> ...]
-func (cm *CMap) parseBfRangeArray(line string) {
-	// Extract start and end codes
-	// Find hex strings for start/end
-	hexStrings := make([]string, 0)
-	startIdx := 0
-	// Only look before the '['
-	bracketIdx := strings.Index(line, "[")
-	if bracketIdx == -1 {
-		return
-	}
-
-	preBracket := line[:bracketIdx]
-	for {
-		idx := strings.Index(preBracket[startIdx:], "<")
-		if idx == -1 {
-			break
-		}
-		idx += startIdx
-		endIdx := strings.Index(preBracket[idx:], ">")
-		if endIdx == -1 {
-			break
-		}
-		endIdx += idx
-
-		hexStr := preBracket[idx+1 : endIdx]
-		hexStrings = append(hexStrings, hexStr)
-		startIdx = endIdx + 1
-	}
-
-	if len(hexStrings) < 2 {
-		return
-	}
-
-	startHex := hexStrings[0]
-	endHex := hexStrings[1]
-
-	startCode, err1 := parseHexToUint32(startHex)
-	endCode, err2 := parseHexToUint32(endHex)
-
-	if err1 != nil || err2 != nil {
-		return
-	}
-
-	// Extract array content
-	arrayStart := strings.Index(line, "[")
-	arrayEnd := strings.Index(line, "]")
-	if arrayStart == -1 || arrayEnd == -1 {
-		return
-	}
-
-	arrayContent := line[arrayStart+1 : arrayEnd]
-
-	// Parse hex strings in array content
-	arrayHexStrings := make([]string, 0)
-	startIdx = 0
-	for {
-		idx := strings.Index(arrayContent[startIdx:], "<")
-		if idx == -1 {
-			break
-		}
-		idx += startIdx
-		endIdx := strings.Index(arrayContent[idx:], ">")
-		if endIdx == -1 {
-			break
-		}
-		endIdx += idx
-
-		hexStr := arrayContent[idx+1 : endIdx]
-		arrayHexStrings = append(arrayHexStrings, hexStr)
-		startIdx = endIdx + 1
-	}
-
-	// Map each character code to its Unicode value
-	currentCode := startCode
-	for _, hex := range arrayHexStrings {
-		if hex == "" {
-			continue
-		}
-
-		unicode, err := hexToUnicode(hex)
-		if err == nil && currentCode <= endCode {
-			cm.charMappings[currentCode] = unicode
-		}
-
-		currentCode++
-	}
 }
 
 // Lookup looks up a character code and returns the Unicode string
